@@ -352,6 +352,7 @@ for _p, _tiers in (("C05", ["quick", "thorough"]), ("C10", ["quick", "thorough"]
 _C03_STAGES.insert(3, {"variant": "dbg", "workload": "C03-large"})
 _C03_STAGES.insert(6, {"variant": "asan", "workload": "C03-large", "args_quick": ["--scale", "0.25"], "args_thorough": ["--scale", "0.1"]})
 PLANS["C03"]["rule"] += _LARGE_RULE
+PLANS["C16"]["rule"] += " In each of the eight builds the sink-fault enumeration of C14 (scenario corpus, every call position, once / sticky; a tenth of the random scenarios) runs as well: a failing sink must not make a build with or without a facility behave differently from what C14 says."
 PLANS["C16"]["rule"] += " The session-closure stage of C01/C05/... also runs in each of the eight builds (a quarter of the state budget) under that build's models."
 
 # ---------------------------------------------------------------- generated declarations (C09, C11 stage 2, C12)
